@@ -198,6 +198,20 @@ type parsedLog struct {
 	ok     bool // every non-blank line parsed
 }
 
+// abstractText maps concretised text back to the token the specification uses
+func abstractText(v string) string {
+	if len(v) > 4096 {
+		if v == bigBody {
+			return "BIG"
+		}
+		return fmt.Sprintf("LONG#%d#%08x", len(v), fnv(v))
+	}
+	if v == uniTitle {
+		return "UNI"
+	}
+	return v
+}
+
 func parseLog(raw []byte, ids *IDMap, learn bool) parsedLog {
 	var pl parsedLog
 	pl.ok = true
@@ -230,8 +244,8 @@ func parseLog(raw []byte, ids *IDMap, learn bool) parsedLog {
 			a["id"] = ids.model(str("id"))
 			a["epic"] = ids.model(str("epic_id"))
 			a["state"] = str("state")
-			a["title"] = str("title")
-			a["body"] = str("body")
+			a["title"] = abstractText(str("title"))
+			a["body"] = abstractText(str("body"))
 			a["_ts"] = str("created_at")
 		case "state":
 			a["id"], a["state"], a["_ts"] = ids.model(str("id")), str("state"), str("ts")
@@ -240,9 +254,9 @@ func parseLog(raw []byte, ids *IDMap, learn bool) parsedLog {
 		case "unclaim":
 			a["id"], a["_ts"] = ids.model(str("id")), str("ts")
 		case "title":
-			a["id"], a["text"], a["_ts"] = ids.model(str("id")), str("title"), str("ts")
+			a["id"], a["text"], a["_ts"] = ids.model(str("id")), abstractText(str("title")), str("ts")
 		case "body":
-			a["id"], a["text"], a["_ts"] = ids.model(str("id")), str("body"), str("ts")
+			a["id"], a["text"], a["_ts"] = ids.model(str("id")), abstractText(str("body")), str("ts")
 		case "epic":
 			a["id"], a["epic"], a["_ts"] = ids.model(str("id")), ids.model(str("epic_id")), str("ts")
 		case "link", "unlink":
@@ -382,7 +396,7 @@ func (s *Store) observe(ids *IDMap) Observation {
 			return o
 		}
 		it := &viewItem{Kind: li.Kind, State: sh.State, Claim: sh.ClaimedBy, Epic: ids.model(sh.EpicID),
-			Title: sh.Title, Body: sh.Body, Ready: li.Ready, Blocked: li.Blocked,
+			Title: abstractText(sh.Title), Body: abstractText(sh.Body), Ready: li.Ready, Blocked: li.Blocked,
 			Created: sh.CreatedAt, Updated: sh.UpdatedAt, ClaimedAt: sh.ClaimedAt,
 			Deps: []string{}, RDeps: []string{}, Results: []obsResult{}}
 		for _, d := range sh.Deps {
